@@ -61,7 +61,11 @@ def collect(h):
     body = h.func_body(rel, r"^func \(c \*buildContext\) addTableItems\(", "addTableItems")
     h.find(rel, r"c\.addTableItems\(schema,\s*item\.FieldSet\.typ\.Items\)", "addTableItems: field set recursion")
     items.append(("parser_field_set_cycles_checked", "bool",
-                  "true" if re.search(r"if\s+slices\.Contains\(c\.fieldSets,\s*item\.FieldSet\.typ\)\s*\{[^}]*stmtErr", body) else "false", rel + " addTableItems (C16-F5)"))
+                  "true" if re.search(r"if\s+slices\.Contains\(c\.(?:defCtx\(\)\.)?fieldSets,\s*item\.FieldSet\.typ\)\s*\{[^}]*stmtErr", body) else "false", rel + " addTableItems (C16-F5)"))
+    # C16-F5b: is that guard kept per definition being built (or one stack for the whole build, shared with
+    # tables built on demand in the middle of another definition - a false cycle)?
+    items.append(("parser_field_set_guard_per_definition", "bool",
+                  "true" if re.search(r"slices\.Contains\(c\.defCtx\(\)\.fieldSets,", body) else "false", rel + " addTableItems (C16-F5b)"))
     body = h.func_body(rel, r"^func \(c \*buildContext\) grantsAndRevokes\(", "grantsAndRevokes")
     by_map = bool(re.search(r"for\s+_\s*,\s*\w+\s*:=\s*range\s+c\.app\.Packages\s*\{", body))
     by_path = bool(re.search(r"slices\.Sort\(paths\)", body)) and len(re.findall(r"for\s+_\s*,\s*path\s*:=\s*range\s+paths\s*\{", body)) == 2
@@ -88,6 +92,27 @@ def collect(h):
     if bare == pos:
         raise h.Missing(f"{rel}: addTableFieldToTable: cannot decide how ErrNestedTableIncorrectKind is reported")
     items.append(("parser_container_kind_error_positioned", "bool", "true" if pos else "false", rel + " addTableFieldToTable (C16-F10)"))
+    # anchors of the repairs proposed for C16-F11, F12, F13, F16, F17 (false until committed; lemmas then)
+    rel = "pkg/parser/impl_analyse.go"
+    body = h.func_body(rel, r"^func getTableTypeKind\(", "getTableTypeKind")
+    i_chain, i_self = body.find("getTableInheritanceChain("), body.find("check(tableNode{pkg: pkg, table: table})")
+    if i_chain < 0 or i_self < 0:
+        raise h.Missing(f"{rel}: getTableTypeKind: cannot locate the chain walk / the kind-by-name shortcut")
+    items.append(("parser_system_tables_chain_checked", "bool", "true" if i_chain < i_self else "false", rel + " getTableTypeKind (C16-F11)"))
+    body = h.func_body(rel, r"^func analyzeCommand\(", "analyzeCommand")
+    items.append(("parser_command_parameter_kinds_checked", "bool", "true" if re.search(r"!allowed\(tbl\.tableTypeKind\)", body) else "false", rel + " analyzeCommand (C16-F12)"))
+    body = h.func_body(rel, r"^func analyzeJob\(", "analyzeJob")
+    std, sec = "cron.ParseStandard(" in body, "cron.SecondOptional" in body
+    if std == sec:
+        raise h.Missing(f"{rel}: analyzeJob: cannot decide which cron parser checks the schedule")
+    items.append(("parser_job_schedule_standard", "bool", "true" if std else "false", rel + " analyzeJob (C16-F13)"))
+    rel = "pkg/parser/utils.go"
+    body = h.func_body(rel, r"^func buildQname\(", "buildQname")
+    items.append(("parser_parameter_package_resolved", "bool", "true" if "findPackage(pkg, ctx)" in body else "false", rel + " buildQname (C16-F16)"))
+    rel = "pkg/parser/impl.go"
+    body = h.func_body(rel, r"^func parseImpl\(", "parseImpl")
+    h.find(rel, r"parser\.ParseString\(fileName, content\)", "parseImpl: ParseString")
+    items.append(("parser_nesting_depth_bounded", "bool", "true" if re.search(r"checkNesting\(basicLexer, fileName, content\)", body) else "false", rel + " parseImpl (C16-F17)"))
     # the parser's identifier rule: a letter followed by at most 254 word characters
     rel = "pkg/parser/const.go"
     h.find(rel, r'identifierRegexp\s*=\s*`\(\[a-zA-Z\]\\w\{0,254\}\)\|\("\[a-zA-Z\]\\w\{0,254\}"\)`', "identifierRegexp")
